@@ -331,6 +331,19 @@ def check(tier, seed, scratch, inc, ncpu, pool_map, prop="C03"):
     n = 16 if tier == "quick" else 160
     rng = random.Random(seed * 49979687 + (1 if tier == "quick" else 2))
     cases = [gen_case(rng) for _ in range(n)]
+    # every style appears in every run, the quick one included
+    forced = [dict(style="use_next", sibling=True),
+              dict(style="next_alias", sibling=True),
+              dict(style="macro", shadow=True, container=False),
+              dict(style="add_function_twice"),
+              dict(style="macro_inline", shadow=True),
+              dict(style="static_method"),
+              dict(style="next_member"),
+              dict(style="use_next", sibling=True),
+              dict(style="next_alias", sibling=True)]
+    for i, f in enumerate(forced):
+        if i < len(cases):
+            cases[i] = dict(cases[i], **f)
     results = pool_map(run_case, [(c, scratch, "c03_%d" % i, inc)
                                   for i, c in enumerate(cases)])
     res = dict(evaluations=0, nontrivial=0, inconclusive=0, classes={},
